@@ -313,6 +313,20 @@ theorem C01_fixed_stack_refuted {σ : Type} (S : MarkSet σ) (d : Nat) :
     (level S Cfg.current (chainHeap (d + 1)) d).item 8 S.empty = .deep :=
   ⟨chainHeap_wf _, chainHeap_safe _, chain_exceeds_budget S Cfg.current (by decide) (by decide) (by decide) d⟩
 
+/-- **Refuted (known finding KF-C01-dangling-tuple-item, not repaired): completion without `CallbackSafe`.**
+    Full statement that fails: `C01_rec_completes` without the hypothesis `h.CallbackSafe`.
+    On a well-formed heap whose Tuple holds the address of an object that has been deleted by hand, the marker with the
+    call structure of GC.c does not complete for any budget ≥ 2: `GC_Mark_And_Recurse` finds the pointer unregistered and
+    calls `GC_Recurse` on it — memory the model knows nothing about (on the real machine: a freed block, witness
+    corpus/kf_c01_dangling_tuple.ops).  Reachable objects are still never reclaimed (`C01_collect_safe` has no such hypothesis). -/
+theorem C01_dangling_tuple_item_refuted {σ : Type} (S : MarkSet σ) (d : Nat) :
+    danglingHeap.WF ∧ ¬ danglingHeap.CallbackSafe ∧
+    (level S Cfg.current danglingHeap (d + 2)).item 4096 S.empty = .ub := by
+  refine ⟨danglingHeap_wf, ?_, dangling_ub S Cfg.current (by decide) (by decide) (by decide) d⟩
+  intro hs
+  have := hs 4096 ⟨.tup "Tuple" [4160], false⟩ rfl 4160 (by simp [handed])
+  exact absurd this (by decide)
+
 /-- … while the guarded callback completes on it and marks it (non-vacuity of `C01_rec_agrees`) -/
 example : (level listSet Cfg.current selfTupleHeap 3).item 4096 [] = .ok [4096] := by decide
 
